@@ -19,6 +19,7 @@ import (
 	"github.com/pion/webrtc/v4"
 	"pgregory.net/rapid"
 
+	"github.com/jech/galene/estimator"
 	"github.com/jech/galene/group"
 	"github.com/jech/galene/verifkit"
 )
@@ -286,6 +287,12 @@ func TestVerif_C06_ReadLoopNacks(t *testing.T) {
 		}
 		rig := newLoopRig("video/VP8", group.VideoRTCPFeedback, rapid.SampledFrom([]int{4, 32, 128}).Draw(t, "cache"), raws)
 		defer rig.close()
+		// the stream's measured packet rate decides how late a packet must be before it is requested (20 ms worth of packets,
+		// between 2 and 24): the estimator is given an hour-long interval and a drawn last estimate
+		pps := rapid.SampledFrom([]int{0, 0, 100, 600, 1200, 1250, 1600, 3000, 100000, 1 << 31}).Draw(t, "packetsPerSecond")
+		rig.tr.rate = estimator.New(time.Hour)
+		pfield(rig.tr.rate, "packetRate").SetUint(uint64(pps))
+		c06lRec.ClassIf(pps >= 1200, "fast_stream_lateness_threshold_at_its_cap")
 		type nackEv struct {
 			consumed int
 			seqs     []uint16
